@@ -23,7 +23,7 @@ let parse_syms s = if s = "" || s = "e" then [] else List.map parse_sym (split_o
 
 let parse_header h =
   match List.filter (fun x -> x <> "") (split_on h " ") with
-  | [ "G"; a; b; c; p ] ->
+  | "G" :: a :: b :: c :: p :: ([] | [ "names=same" ]) ->
     let ps = if p = "-" then [] else
         List.map (fun q -> match split_on q ">" with
             | [ hd; bd ] -> (int_of_string hd, parse_syms bd)
@@ -181,6 +181,26 @@ let show_yield y = if y = [] then "-" else
 
 let parse_tokens s = if s = "e" || s = "" then [] else List.map int_of_string (split_on s ".")
 
+(* ---------------------------------------------------------------- per-grammar context
+   (recomputed when an ADDP / DELP / ADDT op edits the grammar of the case) *)
+type ctx = { g : igram; mg : gram; valid : bool; an : analysis option; bt : (table * bool) option;
+             nu : bool array Lazy.t; fs : int list array Lazy.t; fo : (int list * bool) array Lazy.t;
+             all_reach : bool Lazy.t; small : bool; bfollow : (int list array * bool array * bool) Lazy.t }
+
+let make_ctx g =
+  let mg = mgram g in
+  let valid = verify mg && nodup_prods mg.prods in
+  let an = if valid then analyse mg (id_oracle mg) else None in
+  let nu = lazy (ind_nullable g) in
+  let fs = lazy (ind_first_sets g (Lazy.force nu)) in
+  let fo = lazy (ind_follow_sets g (Lazy.force nu) (Lazy.force fs)) in
+  let reach = lazy (ind_reachable g) in
+  { g; mg; valid; an; nu; fs; fo;
+    bt = (match an with Some a -> Some (a.an_table, a.an_conflict) | None -> None);
+    all_reach = lazy (let r = Lazy.force reach in List.for_all (fun i -> r.(i)) (range g.nn));
+    small = g.nn <= 2 && g.nt <= 2 && Array.length g.ps <= 4 && Array.for_all (fun (_, b) -> List.length b <= 3) g.ps;
+    bfollow = lazy (brute_follow g) }
+
 (* ---------------------------------------------------------------- main loop *)
 let stats : (string, int) Hashtbl.t = Hashtbl.create 64
 let bump ?(by = 1) k = Hashtbl.replace stats k (by + try Hashtbl.find stats k with Not_found -> 0)
@@ -197,30 +217,20 @@ let () =
          incr lineno; bump "cases";
          let parts = List.map trim (split_on line "|") in
          let head = List.hd parts and body = List.tl parts in
-         let g = parse_header head in
-         let mg = mgram g in
-         let valid = verify mg && nodup_prods mg.prods in
-         let an = if valid then analyse mg (id_oracle mg) else None in
+         let ctx = ref (make_ctx (parse_header head)) in
          let opno = ref 0 in
          let mismatch kind fmt =
            Printf.ksprintf (fun s -> Printf.printf "MISMATCH line=%d op=%d kind=%s what=%s\n" !lineno !opno kind s) fmt in
-         setmax "max_nonterminals" g.nn; setmax "max_terminals" g.nt; setmax "max_productions" (Array.length g.ps);
-         (* independent characterisation, computed lazily once per case *)
-         let nu = lazy (ind_nullable g) in
-         let fs = lazy (ind_first_sets g (Lazy.force nu)) in
-         let fo = lazy (ind_follow_sets g (Lazy.force nu) (Lazy.force fs)) in
-         let reach = lazy (ind_reachable g) in
-         let all_reach = lazy (let r = Lazy.force reach in List.for_all (fun i -> r.(i)) (range g.nn)) in
-         let small = g.nn <= 2 && g.nt <= 2 && Array.length g.ps <= 4
-                     && Array.for_all (fun (_, b) -> List.length b <= 3) g.ps in
-         let bfollow = lazy (brute_follow g) in
-         let bt = match an with Some a -> Some (a.an_table, a.an_conflict) | None -> None in
+         (let g = !ctx.g in
+          setmax "max_nonterminals" g.nn; setmax "max_terminals" g.nt; setmax "max_productions" (Array.length g.ps));
+         if List.length (List.filter (fun x -> x <> "") (split_on head " ")) = 6 then bump "cases_shared_names";
          let accepted = ref 0 and rejected = ref 0 and did_parse = ref false in
          let fi_count = ref 0 and brute_on = ref true in
-         if valid && an = None then begin
+         if !ctx.valid && !ctx.an = None then begin
            opno := 0; mismatch "api" "model: a fixpoint loop ran out of fuel on %s (theorems say it cannot)" head end;
          List.iter (fun opres ->
              incr opno; bump "ops";
+             let { g; mg; an; bt; nu; fs; fo; all_reach; small; bfollow; _ } = !ctx in
              let op, res = match split_on opres "->" with
                | [ a; b ] -> (trim a, trim b) | [ a ] -> (trim a, "?") | _ -> (opres, "?") in
              let toks = Array.of_list (List.filter (fun x -> x <> "") (split_on op " ")) in
@@ -235,6 +245,16 @@ let () =
              match toks.(0), an with
              | "V", _ -> api_eq "Verify" (if verify mg then "ok" else "err")
              | "RE", _ -> brute_on := false
+             | ("ADDP" | "DELP"), _ ->
+               bump "op_edit"; brute_on := false;
+               let (h, b) = match split_on toks.(1) ">" with
+                 | [ hd; bd ] -> (int_of_string hd, parse_syms bd) | _ -> failwith ("bad production " ^ toks.(1)) in
+               let l = Array.to_list g.ps in
+               let present = List.mem (h, b) l in
+               let l' = if toks.(0) = "ADDP" then (if present then l else l @ [ (h, b) ])
+                 else List.filter (fun p -> p <> (h, b)) l in
+               ctx := make_ctx { g with ps = Array.of_list l' }
+             | "ADDT", _ -> bump "op_edit"; brute_on := false; ctx := make_ctx { g with nt = g.nt + 1 }
              | _, None -> bump "ops_skipped_invalid_grammar"
              | "NUL", Some a ->
                bump "op_NUL";
@@ -313,7 +333,8 @@ let () =
                (* the property: a table conflict always comes with an IsLL1 error *)
                if a.an_conflict && res = "ok" then
                  mismatch "api" "IsLL1 reports no error although the predictive table has a conflict on %s" head
-             | "TBL", Some a ->
+             | ("TBL" | "MTBL"), Some a ->
+               if toks.(0) = "MTBL" then bump "op_MTBL";
                bump "op_TBL";
                if a.an_conflict then bump "table_conflict" else bump "table_ok";
                api_eq "BuildParsingTable" (if a.an_conflict then "conflict" else "ok")
@@ -326,8 +347,8 @@ let () =
                let expect = show_set_flag ps sync "s" in
                if res <> "?" && res <> expect then
                  mismatch "fidelity" "M[N%d,%s]: implementation %s, model %s on %s" i toks.(2) res expect head
-             | "P", Some a ->
-               bump "op_P"; did_parse := true;
+             | ("P" | "MP" | "RP"), Some a ->
+               bump ("op_" ^ toks.(0)); did_parse := true;
                let w = parse_tokens toks.(1) in
                setmax "max_input_len" (List.length w);
                let mw = List.mapi (fun i t -> (nat_of_int t, nat_of_int i)) w in
@@ -374,8 +395,8 @@ let () =
                    end
                  end
                end
-             | "A", Some a ->
-               bump "op_A"; did_parse := true;
+             | ("A" | "MA"), Some a ->
+               bump ("op_" ^ toks.(0)); did_parse := true;
                let w = parse_tokens toks.(1) in
                let mw = List.mapi (fun i t -> (nat_of_int t, nat_of_int i)) w in
                let expect = match parseAndBuildAST_bt bt mg.start fuel mw with
@@ -399,7 +420,8 @@ let () =
                end
              | _ -> if res <> "?" then mismatch "api" "unknown op %s" op
            ) body;
-         (match an with
+         (let { g; an; all_reach; _ } = !ctx in
+          match an with
           | Some a ->
             if a.an_nullable <> [] then bump "grammars_with_nullable";
             if not (Lazy.force all_reach) then bump "grammars_with_unreachable";
